@@ -354,17 +354,43 @@ func (p *Prog) zeroStreamKinds(k *ksaResult) uint16 {
 					continue
 				}
 				found = true
-				nonzero := false
-				for _, ft := range p.factsAt(in) {
-					d := p.vdescN(ft.Cond, 4)
-					if strings.HasPrefix(d, "((*FrameHeader).Stream(") && ((strings.HasSuffix(d, " != 0)") && ft.Val) || (strings.HasSuffix(d, " == 0)") && !ft.Val)) {
-						nonzero = true
+				// the frame may be a parameter of a small forwarding helper: judge
+				// at the helper's call sites
+				type site struct {
+					in  ssa.Instruction
+					val ssa.Value
+				}
+				sites := []site{{in, val}}
+				if pa, ok := val.(*ssa.Parameter); ok {
+					sites = nil
+					idx := -1
+					for i, q := range f.Params {
+						if q == pa {
+							idx = i
+						}
+					}
+					for _, cs := range p.callsTo(p.fname(f)) {
+						if idx >= 0 && idx < len(cs.Common.Args) {
+							sites = append(sites, site{cs.Instr, cs.Common.Args[idx]})
+						}
+					}
+					if len(sites) == 0 {
+						return kAll
 					}
 				}
-				if nonzero {
-					continue
+				for _, st := range sites {
+					nonzero := false
+					for _, ft := range p.factsAt(st.in) {
+						d := p.vdescN(ft.Cond, 4)
+						if strings.HasPrefix(d, "((*FrameHeader).Stream(") && ((strings.HasSuffix(d, " != 0)") && ft.Val) || (strings.HasSuffix(d, " == 0)") && !ft.Val)) {
+							nonzero = true
+						}
+					}
+					if nonzero {
+						continue
+					}
+					m |= k.kindAt(st.in, st.val)
 				}
-				m |= k.kindAt(in, val)
 			}
 		}
 	}
